@@ -51,6 +51,8 @@ def gen_value(rng):
                        ['PS', ''], ['PS', str(rng.randrange(50))], ['PB', 0], ['PB', 1]])
   if r < 0.40:
     return ['S', '']
+  if r < 0.50:
+    return ['S', rng.choice(['é✓ 日本', 'a\nb', ' ', 'a:b\\', '{"json": [1, 2]}', 'x' * 3000, '\t\r\n'])]
   return ['S', str(rng.randrange(50))]
 
 
